@@ -99,8 +99,23 @@ func (p *Prog) helperReturnsSticky(cur *Cursor, h *ssa.Function, j int, depth in
 // stickyFlowAccepts: at the return ret of fn, the value r is the sticky error of the reader `base` as it is then —
 // r is a value that currently equals it, or the nil constant where the error is known to be nil.
 func (p *Prog) stickyFlowAccepts(cur *Cursor, fn *ssa.Function, base ssa.Value, ret *ssa.Return, r ssa.Value, depth int) bool {
-	if depth > 3 || len(fn.Blocks) == 0 {
+	at, ok := p.stickyStateAt(cur, fn, base, ret, depth)
+	if !ok {
 		return false
+	}
+	if !at.reached {
+		return true // unreachable return
+	}
+	if isNilConst(r) {
+		return at.known == 1
+	}
+	return at.cur[r]
+}
+
+// stickyStateAt: the state of the sticky-error flow of reader `base` in fn just before the instruction `stop`.
+func (p *Prog) stickyStateAt(cur *Cursor, fn *ssa.Function, base ssa.Value, stop ssa.Instruction, depth int) (stickyState, bool) {
+	if depth > 3 || len(fn.Blocks) == 0 {
+		return stickyState{}, false
 	}
 	isBase := func(v ssa.Value) bool { return v == base }
 	pr := NewProver(p, fn)
@@ -293,13 +308,6 @@ func (p *Prog) stickyFlowAccepts(cur *Cursor, fn *ssa.Function, base ssa.Value, 
 			break
 		}
 	}
-	b := ret.Block()
-	at := transfer(b, inState(b, nil), ret)
-	if !at.reached {
-		return true // unreachable return
-	}
-	if isNilConst(r) {
-		return at.known == 1
-	}
-	return at.cur[r]
+	b := stop.Block()
+	return transfer(b, inState(b, nil), stop), true
 }
